@@ -256,15 +256,20 @@ def run(tier, seed):
         cpu["t"] = time.process_time()
     counts = {"gate_rejected": {}, "gate_failed": {}, "tableau_equal_model": 0, "tableau_other_generators": 0, "tableau_pairing_ok": 0,
               "tableau_validated": 0, "tableau_truncated": 0, "statevector_compared": 0, "statevector_phase_equal": 0,
-              "exp_pm1": 0, "exp_zero": 0, "device_executions": 0, "wide_cases": 0, "by_family": {}}
+              "exp_pm1": 0, "exp_zero": 0, "basis_state_preparations": 0, "device_executions": 0, "wide_cases": 0, "by_family": {}}
 
     # ------------------------------------------------------------ phase 0: which table gates does the device execute at all
     prefix = [mk("Hadamard", 0, [1]), mk("S", 0, [1]), mk("CNOT", 0, [1, 2]), mk("Hadamard", 0, [3]), mk("CZ", 0, [3, 2])]
     cases = []
 
-    def new_case(fam, n, ops, labels, devwires, sv=1, meas=None):
+    def new_case(fam, n, ops, labels, devwires, sv=1, meas=None, prep=None):
+        plops = [decode_gate(g, M, labels) for g in ops]
+        if prep is not None:       # BasisState preparation: in the models, X on the wires whose bit is 1
+            plops = [qp.BasisState(np.array(prep), wires=labels)] + plops
+            ops = [mk("PauliX", 0, [i + 1]) for i, b in enumerate(prep) if b] + ops
+            counts["basis_state_preparations"] += 1
         c = {"fam": fam, "n": n, "ops": ops, "labels": labels, "devwires": devwires, "sv": sv, "meas": meas,
-             "plops": [decode_gate(g, M, labels) for g in ops], "rows": None, "alt": None, "out": {}, "m": 0}
+             "plops": plops, "rows": None, "alt": None, "out": {}, "m": 0}
         cases.append(c)
         counts["by_family"][fam] = counts["by_family"].get(fam, 0) + 1
         return c
@@ -388,7 +393,8 @@ def run(tier, seed):
         ops = touch_all([rgate(n) for _ in range(rng.randint(1, 14))], n)
         mode = i % 3
         labels = list(range(n)) if mode == 0 else rng.choice(devsim.LABEL_TABLES[1:])[:n]
-        c = new_case("random", n, ops, labels, devwires=(rng.random() < 0.5) if mode == 0 else (mode == 1))
+        c = new_case("random", n, ops, labels, devwires=(rng.random() < 0.5) if mode == 0 else (mode == 1),
+                     prep=[rng.randint(0, 1) for _ in range(n)] if rng.random() < 0.2 else None)
         if not exec_case(c):
             V.add(f"exception:{type(c['exc']).__name__}", f"{type(c['exc']).__name__}: {c['exc']} on {describe(c)}", {"ops": c["ops"]})
             cases.pop()
